@@ -810,7 +810,7 @@ def ds_build(d, base_dir=None):
 def _default_design(ax):
     """Design-space default of an axis: the map output listed for the default, else the default."""
     for a, b in ax["map"]:
-        if ds_fmt(a) == ds_fmt(ax["default"]):
+        if float(a) == float(ax["default"]):
             return b
     if ax["map"] and ax["kind"] == "range":
         raise HarnessError("format-4 axis map does not list the default")
